@@ -55,6 +55,12 @@ func parseClusterNodes(data string) (map[string]*instance, error) {
 
 		isMaster := fields[3] == "-"
 		if !isMaster {
+			// NOTE: a replica which is marked as failed by the cluster (or
+			// whose address isn't known yet) can't serve any reads.
+			if isUnusableNode(fields[2]) {
+				delete(insts, id)
+				continue
+			}
 			inst.MasterID = fields[3]
 			continue
 		}
@@ -81,6 +87,18 @@ func parseClusterNodes(data string) (map[string]*instance, error) {
 		delete(insts, id)
 	}
 	return insts, nil
+}
+
+// isUnusableNode reports whether the flags of a node (the third field of
+// a CLUSTER NODES line, e.g. "slave,fail") say that it can't be talked to.
+func isUnusableNode(flags string) bool {
+	for _, flag := range strings.Split(flags, ",") {
+		switch flag {
+		case "fail", "noaddr", "handshake":
+			return true
+		}
+	}
+	return false
 }
 
 func parseClusterNodesSlot(segements []string) ([]int, error) {
